@@ -63,7 +63,7 @@ $(B)/race/repo/fitter/nnls.o: $(REPO)/src/fitter/nnls.c
 SCHED_WRAPS := pthread_create pthread_join pthread_detach pthread_exit pthread_self \
   pthread_mutex_init pthread_mutex_destroy pthread_mutex_lock pthread_mutex_trylock pthread_mutex_unlock \
   pthread_cond_init pthread_cond_destroy pthread_cond_wait pthread_cond_timedwait pthread_cond_signal pthread_cond_broadcast \
-  sched_yield sleep usleep nanosleep sched_setaffinity pthread_setaffinity_np pthread_attr_init pthread_attr_destroy pthread_attr_setaffinity_np getenv clock \
+  sched_yield sleep usleep nanosleep sched_setaffinity pthread_setaffinity_np pthread_attr_init pthread_attr_destroy pthread_attr_setaffinity_np getenv sysconf clock \
   walk_descents modify_factor cholesky_solve SuiteSparseQR_C_backslash_default cholmod_l_start cholmod_l_allocate_dense cholmod_l_copy_dense cholmod_l_sdmult cholmod_l_free_dense \
   malloc calloc realloc free
 SCHED_COMMON := $(B)/asan/sim/harness.o $(B)/asan/sim/sched.o $(B)/asan/harness/psv_sched.o \
